@@ -2131,7 +2131,8 @@ class tensor:
         for element in subs:
             if isinstance(element, slice):
                 if element.stop is None:
-                    sliceCheck.append(1)
+                    # An unbounded slice never asks for more than what exists
+                    sliceCheck.append(0)
                 else:
                     sliceCheck.append(element.stop - 1)
             elif isinstance(element, Iterable):
